@@ -152,7 +152,7 @@ C13(C, X) ==
            /\ \A d \in Desc(C, s) : X.nshut[d] = 1 /\ ~ShPending(X, d)
            /\ X.did[s]
            \* bounded: shutdown_timeout, plus the unwinding of the handlers cancelled then
-           /\ C.stmo[s] >= 0 => X.te[s] <= X.sdl[s] + Max({C.scdur[d] : d \in Desc(C, s)} \cup {0})
+           /\ (C.stmo[s] >= 0 /\ ~C.preshut) => X.te[s] <= X.sdl[s] + Max({C.scdur[d] : d \in Desc(C, s)} \cup {0})
   /\ \A k \in Nodes(C) \ {Root} :
        X.sh[k] # "none" => \A b \in Desc(C, C.parent[k]) : ~Live(X, b)
 
@@ -192,5 +192,10 @@ Ends(C, n) == IF IsJob(C, n) THEN C.dur[n] # -1 ELSE C.tmo[n] >= 0 \/ GoodSched(
 Admissible(C) ==
   /\ \A s \in Scheds(C) : Ends(C, s)
   /\ \A j \in Nodes(C) \ {Root} : IsJob(C, j) => C.sdur[j] >= 0 \/ C.stmo[C.parent[j]] >= 0
+  \* a clean-up that waits for a sibling's cancellation: the sibling is a job that is there
+  \* from the first instant of their scheduler's run (so it is cancelled along, or over)
+  /\ \A j \in Nodes(C) : C.cwait[j] # 0 =>
+        /\ IsJob(C, j) /\ IsJob(C, C.cwait[j]) /\ C.parent[C.cwait[j]] = C.parent[j]
+        /\ C.req[C.cwait[j]] = {} /\ C.win[C.parent[j]] = 0
 
 =============================================================================
